@@ -535,9 +535,9 @@ func c20Modes(r *Run) {
 	for _, s := range om.Decl.Body.List {
 		switch v := s.(type) {
 		case *ast.AssignStmt:
-			if v.Tok == token.OR_ASSIGN {
-				// osMode |= os.FileMode(m & AllPermissions)
-				ast.Inspect(v.Rhs[0], func(n ast.Node) bool {
+			// osMode |= os.FileMode(m & AllPermissions)  (or as part of the initialising expression)
+			for _, rhs := range v.Rhs {
+				ast.Inspect(rhs, func(n ast.Node) bool {
 					if be, ok := n.(*ast.BinaryExpr); ok && be.Op == token.AND {
 						if x, ok := cu(be.Y); ok {
 							permMask = x
@@ -549,24 +549,8 @@ func c20Modes(r *Run) {
 		case *ast.SwitchStmt:
 			for _, c := range v.Body.List {
 				cc := c.(*ast.CaseClause)
-				add := uint64(0)
-				for _, b := range cc.Body {
-					if as, ok := b.(*ast.AssignStmt); ok && as.Tok == token.OR_ASSIGN {
-						if x, ok := cu(as.Rhs[0]); ok {
-							add |= x
-						}
-					}
-				}
 				for _, e := range cc.List {
 					e = unparen(e)
-					if call, ok := e.(*ast.CallExpr); ok {
-						if sel, ok := call.Fun.(*ast.SelectorExpr); ok {
-							if t, ok := isX[sel.Sel.Name]; ok {
-								toOS[t] = add
-								continue
-							}
-						}
-					}
 					// special bits inside the switch: only the first matching case is translated
 					if be, ok := e.(*ast.BinaryExpr); ok && be.Op == token.NEQ {
 						if and, ok := unparen(be.X).(*ast.BinaryExpr); ok && and.Op == token.AND {
@@ -591,6 +575,19 @@ func c20Modes(r *Run) {
 			}
 		}
 	}
+	// OSMode's type part as a table "file type → os bits", however the switching is written
+	// (IsX() cases, a switch on FileType(), a helper method)
+	mt := &modeTab{l: r.L, info: info}
+	if tab, found, okTab := mt.orTable(om, mt.envOf(om), 0); found && okTab {
+		for t, bits := range tab {
+			if bits != 0 || t == posix["ModeRegular"] {
+				toOS[t] = bits
+			}
+		}
+	} else if found {
+		r.undecided("r5", "OSMode: type switch", om.Decl.Pos(), "the arms of OSMode's type switch are not 'result |= constant'")
+	}
+	_ = isX
 	r.check(okShape && len(fromList) >= 6, "r5", "ModeFromOS is an ordered decision list over os mode bits", mf.Decl.Pos(), fmt.Sprintf("%d cases + default", len(fromList)), "ModeFromOS's type switch is not a list of 'mode&MASK != 0' tests the checker can evaluate")
 	r.check(!specialInSwitch, "r5", "setuid, setgid and sticky are translated independently of each other", om.Decl.Pos(), "three independent if statements in each direction", "the special bits are translated inside a switch: only the first matching case runs, so a mode with two of setuid/setgid/sticky set loses the others on the round trip")
 	// simulate: for each p9 type, OSMode's bits → ModeFromOS's first matching case
@@ -652,21 +649,18 @@ func c20Modes(r *Run) {
 	r.check(okPerm, "r5", "ModeFromOS copies the rwx bits", mf.Decl.Pos(), "FileMode(mode.Perm())", "ModeFromOS does not start from mode.Perm()")
 	// QIDType
 	if qt := r.L.Func("p9", "FileMode.QIDType"); qt != nil {
+		tab, okTab := mt.valueFunc(qt, mt.envOf(qt), 0, cu)
 		got := map[string]string{}
-		ast.Inspect(qt.Decl.Body, func(n ast.Node) bool {
-			if cc, ok := n.(*ast.CaseClause); ok && len(cc.Body) == 1 {
-				if ret, ok := cc.Body[0].(*ast.ReturnStmt); ok {
-					for _, e := range cc.List {
-						got[norm(e)] = norm(ret.Results[0])
-					}
-					if cc.List == nil {
-						got["default"] = norm(ret.Results[0])
-					}
-				}
+		for t, v := range tab {
+			got[modeTypeNames[t]] = fmt.Sprintf("%#x", v)
+		}
+		// 9P: QTDIR 0x80, QTSYMLINK 0x02, QTFILE 0x00
+		okQ := okTab && tab[posix["ModeDirectory"]] == 0x80 && tab[posix["ModeSymlink"]] == 0x02 && tab[posix["ModeRegular"]] == 0x00
+		for t, v := range tab {
+			if t != posix["ModeDirectory"] && v == 0x80 || t != posix["ModeSymlink"] && v == 0x02 {
+				okQ = false // another type reported as directory / symlink
 			}
-			return true
-		})
-		okQ := got["m.IsDir()"] == "TypeDir" && got["m.IsSymlink()"] == "TypeSymlink" && got["default"] == "TypeRegular"
-		r.check(okQ, "r5", "QIDType maps directory, symlink and regular file", qt.Decl.Pos(), "dir→TypeDir, symlink→TypeSymlink, default→TypeRegular", fmt.Sprintf("QIDType table is %v", got))
+		}
+		r.check(okQ, "r5", "QIDType maps directory, symlink and regular file", qt.Decl.Pos(), "dir→QTDIR, symlink→QTSYMLINK, regular→QTFILE, nothing else claims those", fmt.Sprintf("QIDType table (file type → QID type byte) is %v", got))
 	}
 }
